@@ -1458,6 +1458,12 @@ func (s *sim) start(n *nodeSim, order []int, step string) error {
 			}
 			b := before[k]
 			if !b.HasDig || newer(ph.ID, b.ID) {
+				if reqHW, ok := ctl.hw[p.idx]; ok && ph.ID.Ver >= reqHW {
+					// stated mechanism (recovery.go): every digest at or above the requester's
+					// high-water mark is streamed. Only operations below the mark may be left out
+					// (the listed cross-leaseholder limitation).
+					return kit.Fail("recovery-omitted-op-at-or-above-high-water", "%s: %s restarted with recovery high-water mark %d; %s holds %s (version %d >= mark), newer than %s's %s, and did not stream it", step, n.label(), reqHW, p.label(), ph, ph.ID.Ver, n.label(), b)
+				}
 				m := s.skipped[ph.ID]
 				if m == nil {
 					m = map[int]bool{}
